@@ -54,6 +54,10 @@ namespace smt
     SMT_EXPORT bool sat_core::new_clause(std::vector<lit> lits) noexcept
     {
         assert(root_level());
+#ifdef PSTLAB_ORATIO_VERIF
+        if (verif_new_clause)
+            verif_new_clause(verif_ctx, lits);
+#endif
         // we check if the clause is already satisfied and filter out false/duplicate literals..
         std::sort(lits.begin(), lits.end(), [](const auto &l0, const auto &l1)
                   { return variable(l0) < variable(l1); });
@@ -552,6 +556,10 @@ namespace smt
 
     void sat_core::record(std::vector<lit> lits) noexcept
     {
+#ifdef PSTLAB_ORATIO_VERIF
+        if (verif_record)
+            verif_record(verif_ctx, lits);
+#endif
         assert(value(lits[0]) == Undefined);
         assert(std::count_if(lits.cbegin(), lits.cend(), [this](auto &p)
                              { return value(p) == True; }) == 0);
